@@ -56,7 +56,7 @@ def check(ctx):
             seen.add("ok")
             ctx.ob("C15.d", "patterns:next-pattern-after-success", p.end[0] == "cut", "after a successful pattern: %s" % p.end[0], tp.loc())
     ctx.ob("C15.d", "patterns:all-outcomes", seen == {"parse-err", "convert-err", "ok"}, "outcomes %s" % sorted(seen), tp.loc())
-    its = [M.call_name(t) for bb, t in tp.calls(r"Iterator>::(skip|take|filter|step_by|rev|skip_while|take_while)")]
+    its = [M.call_name(t) for bb, t in tp.calls(r"Iterator>::(skip|take|filter|step_by|rev|skip_while|take_while)\b")]
     ctx.ob("C15.d", "patterns:all-patterns-visited", not its, "iterator adapters: %s" % its, tp.loc())
 
     ps_ = F.fn(r"parser::parse_regex_syntax$")
@@ -131,7 +131,7 @@ def check(ctx):
     ctx.ob("C15.d", "mode:all-outcomes", {"nfa-err", "la-err", "la-ok"} <= seen, "outcomes %s" % sorted(seen), cp.loc())
     from . import kernel
     kernel.lookahead_wiring(ctx, ("C15.d",))
-    its = [M.call_name(t) for bb, t in cp.calls(r"Iterator>::(skip|take|filter|step_by|rev|skip_while|take_while)")]
+    its = [M.call_name(t) for bb, t in cp.calls(r"Iterator>::(skip|take|filter|step_by|rev|skip_while|take_while)\b")]
     ctx.ob("C15.d", "mode:all-patterns-visited-for-lookaheads", not its, "iterator adapters: %s" % its, cp.loc())
 
     for pat in (r"ScannerImpl as std::convert::TryFrom<std::vec::Vec<scanner_mode::ScannerMode>>>::try_from$", r"ScannerImpl as std::convert::TryFrom<&\[scanner_mode::ScannerMode\]>>::try_from$"):
@@ -151,7 +151,7 @@ def check(ctx):
                 ctx.ob("C15.e", "scanner:%s:class-error-is-returned" % tag, p.end[0] == "return" and variant_of(ex, p, p.end[1]) == "Err", "-> %s" % p.end[0], fn.loc())
                 ctx.ob("C15.d", "scanner:%s:class-error-is-returned" % tag, p.end[0] == "return" and variant_of(ex, p, p.end[1]) == "Err", "-> %s" % p.end[0], fn.loc())
         ctx.ob("C15.d", "scanner:%s:all-outcomes" % tag, seen == {"mode-err", "class-err"}, "outcomes %s" % sorted(seen), fn.loc())
-        its = [M.call_name(t) for bb, t in fn.calls(r"Iterator>::(skip|take|filter|step_by|rev|skip_while|take_while)")]
+        its = [M.call_name(t) for bb, t in fn.calls(r"Iterator>::(skip|take|filter|step_by|rev|skip_while|take_while)\b")]
         ctx.ob("C15.d", "scanner:%s:all-modes-visited" % tag, not its, "iterator adapters: %s" % its, fn.loc())
     sm = F.fn(r"CompiledScannerMode::try_from_scanner_mode$")
     ex, paths = run_fn(sm, F, BaseModel())
@@ -168,19 +168,7 @@ def check(ctx):
                 ctx.ob("C06.h", "mode:name-and-transitions-copied", True, "", "")
                 ok2 = S.vstr(m[3][0]) == "scanner_mode.name" and S.vstr(m[3][2]) == "scanner_mode.transitions"
                 ctx.ob("C15.d", "mode:name-and-transitions-copied", ok2, "CompiledScannerMode{name: %s, transitions: %s}" % (S.vstr(m[3][0]), S.vstr(m[3][2])), sm.loc())
-    # create_match_char_class converts every class; an error is returned
-    cm = F.fn(r"CharacterClassRegistry::create_match_char_class$")
-    ex, paths = run_fn(cm, F, BaseModel())
-    seen = set()
-    for p in ret_paths(paths):
-        tf = p.calls(r"Iterator>::try_fold::")
-        r = p.end[1]
-        if tf and variant_of(ex, p, tf[0][4]) == "Err":
-            seen.add("err")
-            ctx.ob("C15.e", "classes:conversion-error-is-returned", variant_of(ex, p, r) == "Err", "-> %s" % S.vstr(r)[:50], cm.loc())
-        elif tf:
-            seen.add("ok")
-    ctx.ob("C15.e", "classes:both-outcomes", seen == {"err", "ok"}, "outcomes %s" % sorted(seen), cm.loc())
+    # create_match_char_class converts every class; an error is returned: classes.analyze (C15.e) above
 
     # ---- C15.g error discipline on the build path
     reach = F.reachable_fns([f for f in F.fns.values() if re.search(panics.ROOTS["build"], f.name) and f.kind != "Closure"])
